@@ -136,8 +136,47 @@ def _overrun_ops(cap: int, k: int):
             + ["recv"] * 2 + ["get", "discard", "len", "recv", "get", "get"])
 
 
-def _run_impl(cap: int, pol: str, ops, payload_base: int = 0, way=None):
-    """Run one scenario on the real receiver. Returns (lines, outputs, raw_trace)."""
+REENTER_KINDS = ("recv", "len", "ready", "discard", "get0")
+
+
+def _run_impl(cap: int, pol: str, ops, payload_base: int = 0, way=None, reenter=None):
+    """Run one scenario on the real receiver. Returns (lines, outputs, raw_trace).
+
+    `reenter` (a list of kinds from REENTER_KINDS, used in turn): a logging handler at DEBUG level is installed for the run
+    that calls back into the SAME receiver whenever the receiver code logs anything — the receiver's lock is re-entrant, so
+    the nested call runs on the same thread in the middle of the outer one.  Its events are grouped with the outer call."""
+    if reenter:
+        import logging
+        names = ["", "qmi", "qmi.core", "qmi.core.pubsub", "qmi.core.task"]
+        saved = [(logging.getLogger(n), logging.getLogger(n).level) for n in names]
+        prev_disable = logging.root.manager.disable
+        box = {"fn": None, "depth": 0}
+
+        class _Reenter(logging.Handler):
+            def emit(self, record):
+                if box["depth"] or box["fn"] is None:
+                    return
+                box["depth"] += 1
+                try:
+                    box["fn"]()
+                finally:
+                    box["depth"] -= 1
+        h = _Reenter(level=logging.DEBUG)
+        try:
+            logging.disable(logging.NOTSET)
+            for lg, _ in saved:
+                lg.setLevel(logging.DEBUG)
+            logging.getLogger("").addHandler(h)
+            return _run_impl_inner(cap, pol, ops, payload_base, way, list(reenter), box)
+        finally:
+            logging.getLogger("").removeHandler(h)
+            for lg, lvl in saved:
+                lg.setLevel(lvl)
+            logging.disable(prev_disable)
+    return _run_impl_inner(cap, pol, ops, payload_base, way, None, None)
+
+
+def _run_impl_inner(cap: int, pol: str, ops, payload_base, way, reenter, box):
     from qmi.core.pubsub import QMI_SignalReceiver, QMI_SignalMessage
     from qmi.core.messaging import QMI_MessageHandlerAddress
     from qmi.core.exceptions import QMI_TimeoutException
@@ -148,99 +187,159 @@ def _run_impl(cap: int, pol: str, ops, payload_base: int = 0, way=None):
     dst = QMI_MessageHandlerAddress("ctxR", "$pubsub")
     lines = [f"init {cap} {pol}"]
     outs = ["ok"]
-    arrivals = 0
-    trace = []   # (op, observed) for the oracle
-    for op in ops:
+    state = {"arrivals": 0}
+
+    def do_op(op):
+        """one call on the real receiver: (driver line, observed output, oracle event)"""
         if op == "recv":
-            tag = payload_base + arrivals
+            tag = payload_base + state["arrivals"]
+            state["arrivals"] += 1
             rx._receive_signal(QMI_SignalMessage(src, dst, "sig", (tag,)))
-            arrivals += 1
-            lines.append(f"recv {tag}")
-            outs.append("ok")
-            trace.append(("recv", tag, len(rx._queue)))
-        elif op == "get":
-            lines.append("get")
+            return f"recv {tag}", "ok", ("recv", tag, len(rx._queue))
+        if op in ("get", "get0"):
             try:
-                s = rx.get_next_signal()
+                s = rx.get_next_signal(0) if op == "get0" else rx.get_next_signal()
                 ok = (s.publisher_context == "ctxP" and s.publisher_name == "pub" and s.signal_name == "sig"
                       and isinstance(s.args, tuple) and len(s.args) == 1)
-                outs.append(f"sig {s.receiver_seqnr} {s.args[0]}" if ok else f"garbled {s!r}")
-                trace.append(("get", s.receiver_seqnr, s.args[0] if ok else None))
+                return "get", (f"sig {s.receiver_seqnr} {s.args[0]}" if ok else f"garbled {s!r}"), ("get", s.receiver_seqnr, s.args[0] if ok else None)
             except QMI_TimeoutException:
-                outs.append("timeout")
-                trace.append(("get", None, None))
+                return "get", "timeout", ("get", None, None)
             except Exception as e:  # noqa
-                outs.append(f"exc:{type(e).__name__}")
-                trace.append(("get", "exc", type(e).__name__))
-        elif op == "discard":
+                return "get", f"exc:{type(e).__name__}", ("get", "exc", type(e).__name__)
+        if op == "discard":
             rx.discard_all()
-            lines.append("discard")
-            outs.append("ok")
-            trace.append(("discard",))
-        elif op == "len":
-            lines.append("len")
+            return "discard", "ok", ("discard",)
+        if op == "len":
             n = rx.get_queue_length()
-            outs.append(str(n))
-            trace.append(("len", n))
-        elif op == "ready":
-            lines.append("ready")
+            return "len", str(n), ("len", n)
+        if op == "ready":
             b = rx.has_signal_ready()
-            outs.append("true" if b else "false")
-            trace.append(("ready", b))
+            return "ready", ("true" if b else "false"), ("ready", b)
+        raise ValueError(op)
+
+    nested = []
+    if box is not None:
+        turn = {"k": 0}
+
+        def callback():
+            kind = reenter[turn["k"] % len(reenter)]
+            turn["k"] += 1
+            try:
+                nested.append(do_op(kind))
+            except Exception as e:  # noqa - an exception inside the callback is an observation of the nested call
+                nested.append(("get", f"exc:{type(e).__name__}", ("get", "exc", type(e).__name__)))
+        box["fn"] = callback
+    trace = []   # oracle events; ("nested", outer, [inner...]) when a callback ran calls in the middle of an outer call
+    for op in ops:
+        del nested[:]
+        try:
+            line, out, ev = do_op(op)
+        except Exception as e:  # noqa
+            line, out, ev = op, f"exc:{type(e).__name__}", ("get", "exc", type(e).__name__)
+        lines.append(line)
+        outs.append(out)
+        if nested:
+            inner = list(nested)
+            for (l2, o2, e2) in inner:
+                lines.append(l2)
+                outs.append(o2)
+            unl = lambda e: (e[0], e[1], None) if e[0] == "recv" else e  # noqa: lengths seen mid-call say nothing
+            trace.append(("nested", unl(ev), [unl(e2) for (_, _, e2) in inner]))
+        else:
+            trace.append(ev)
+    if box is not None:
+        box["fn"] = None
     return lines, outs, trace
+
+
+def _oracle_step(st, ev, cap: int, pol: str, check_len: bool = True):
+    """One event on the reference: a bounded FIFO with a global arrival counter (that *is* the statement: oldest first, at
+    most `cap`, drop per policy, every arrival consumes one number).  `st` = (queue of (number, tag), arrivals so far, last
+    number handed out); returns (new state, clause or None)."""
+    q, n, last = st
+    if ev[0] == "recv":
+        q = list(q)
+        if len(q) == cap:
+            if pol == "old":
+                q.pop(0)
+                q.append((n, ev[1]))
+        else:
+            q.append((n, ev[1]))
+        n += 1
+        if ev[2] is not None and ev[2] > cap:
+            return (q, n, last), "holds-more-than-maximum"
+        if check_len and ev[2] is not None and ev[2] != len(q):
+            return (q, n, last), ("drop-policy" if len(q) == cap else "queue-length")
+    elif ev[0] == "get":
+        if ev[1] == "exc":
+            return st, "unexpected-exception"
+        if ev[1] is None:
+            return st, ("timeout-although-signal-queued" if q else None)
+        if not q:
+            return st, "signal-from-empty-queue"
+        seq, tag = ev[1], ev[2]
+        if tag is None:
+            return st, "payload-altered"
+        if not isinstance(seq, int) or seq <= last:
+            return st, "sequence-not-increasing"
+        q = list(q)
+        exp = q.pop(0)
+        if (seq, tag) != exp:
+            if tag == exp[1]:
+                return st, "gap-not-equal-to-losses"       # the right signal, but the k-th arrival must carry number k
+            return st, ("not-oldest-first" if any(tag == t for (_, t) in q) else "drop-policy")
+        last = seq
+    elif ev[0] == "discard":
+        q = []
+    elif ev[0] == "len":
+        if ev[1] > cap:
+            return st, "holds-more-than-maximum"
+        if ev[1] != len(q):
+            return st, "queue-length"
+    elif ev[0] == "ready":
+        if ev[1] != (len(q) != 0):
+            return st, "ready-flag"
+    return (q, n, last), None
 
 
 def _oracle(cap: int, pol: str, trace, payload_base: int = 0):
     """The property, evaluated directly on an implementation trace.  Returns a clause name or None.
 
-    A reference bounded FIFO with a global arrival counter is kept alongside (that *is* the statement:
-    oldest first, at most `cap`, drop per policy, every arrival consumes one number)."""
-    q = []        # arrival numbers expected in the queue
-    n = 0         # arrivals so far
-    last = -1
+    An entry of the trace is an event, or a group ("nested", outer event, [events of calls made by a callback that the
+    receiver code reached while it ran the outer call]).  The receiver's lock is re-entrant, so such calls run on the same
+    thread in the middle of the outer one; the run is accepted if the nested calls can be placed either all before or all
+    after the outer call (every combination over the groups is tried, the set of reference states is carried along)."""
+    states = [([], 0, -1)]
     for ev in trace:
-        if ev[0] == "recv":
-            if len(q) == cap:
-                if pol == "old":
-                    q.pop(0)
-                    q.append(n)
-            else:
-                q.append(n)
-            n += 1
-            if ev[2] > cap:
-                return "holds-more-than-maximum"
-            if ev[2] != len(q):
-                return "drop-policy" if len(q) == cap else "queue-length"
-        elif ev[0] == "get":
-            if ev[1] == "exc":
-                return "unexpected-exception"
-            if ev[1] is None:
-                if q:
-                    return "timeout-although-signal-queued"
-                continue
-            if not q:
-                return "signal-from-empty-queue"
-            seq, tag = ev[1], ev[2]
-            if tag is None:
-                return "payload-altered"
-            if seq <= last:
-                return "sequence-not-increasing"
-            if tag - payload_base != seq:
-                return "gap-not-equal-to-losses"       # the k-th arrival must carry number k
-            exp = q.pop(0)
-            if seq != exp:
-                return "not-oldest-first" if seq in q else "drop-policy"
-            last = seq
-        elif ev[0] == "discard":
-            q.clear()
-        elif ev[0] == "len":
-            if ev[1] > cap:
-                return "holds-more-than-maximum"
-            if ev[1] != len(q):
-                return "queue-length"
-        elif ev[0] == "ready":
-            if ev[1] != (len(q) != 0):
-                return "ready-flag"
+        if ev[0] != "nested":
+            nxt, clause = [], None
+            for st in states:
+                st2, c = _oracle_step(st, ev, cap, pol)
+                if c is None:
+                    nxt.append(st2)
+                elif clause is None:
+                    clause = c
+            if not nxt:
+                return clause
+            states = nxt
+            continue
+        outer, inner = ev[1], ev[2]
+        nxt, clause = [], None
+        for st in states:
+            for order in ([outer] + inner, inner + [outer]):
+                cur, c = st, None
+                for e in order:
+                    cur, c = _oracle_step(cur, e, cap, pol, check_len=False)
+                    if c is not None:
+                        break
+                if c is None:
+                    if cur not in nxt:
+                        nxt.append(cur)
+                elif clause is None:
+                    clause = c
+        if not nxt:
+            return "reentrant:" + (clause or "order")
+        states = nxt[:16]
     return None
 
 
@@ -560,6 +659,54 @@ class C09(Prop):
                             case={"ctor": {"way": way, "cap": cap, "policy": pol, "label": label, "rle": _rle(ops)}}))
                         break
 
+    def _reentrant(self, ctx: Ctx, res: Result, n_random: int):
+        """Callbacks the receiver code can reach while it holds its (re-entrant) lock: a logging handler at DEBUG that calls
+        back into the same receiver (_receive_signal, get_queue_length, has_signal_ready, discard_all, get_next_signal(0)),
+        full / non-full queues, both policies.  On a tree whose receiver methods do not log the callback is never reached
+        (counted): the family then equals the plain sequential runs."""
+        fails, all_lines, all_outs, spans = {}, [], [], []
+        scen = []
+        for cap in (1, 2, 3):
+            for pol in ("old", "new"):
+                for kinds in [[k] for k in REENTER_KINDS] + [list(REENTER_KINDS)]:
+                    for k in (0, 1, 2):
+                        scen.append((cap, pol, _overrun_ops(cap, k), kinds))
+        for _ in range(n_random):
+            cap, pol, ops = _gen_scenario(ctx.rng, 40)
+            scen.append((cap, pol, ops, [ctx.rng.choice(REENTER_KINDS) for _ in range(ctx.rng.randint(1, 3))]))
+        for (cap, pol, ops, kinds) in scen:
+            lines, outs, trace = _run_impl(cap, pol, ops, 0, reenter=kinds)
+            reached = sum(len(e[2]) for e in trace if e[0] == "nested")
+            res.note_case(("reenter", cap, pol, tuple(ops), tuple(kinds)), nontrivial=True)
+            res.count("reentrant_runs")
+            res.count("reentrant_callbacks_reached", reached)
+            spans.append((len(all_lines), len(lines), cap, pol, ops, kinds))
+            all_lines += lines
+            all_outs += outs
+            clause = _oracle(cap, pol, trace, 0)
+            if clause and clause not in fails:
+                bad = lambda c, p, o: _oracle(c, p, _run_impl(c, p, o, 0, reenter=kinds)[2], 0) is not None  # noqa
+                small = _shrink(cap, pol, ops, bad) if len(ops) <= 80 else list(ops)
+                l2, o2, t2 = _run_impl(cap, pol, small, 0, reenter=kinds)
+                clause2 = _oracle(cap, pol, t2, 0) or clause
+                fails[clause] = Failure(
+                    signature=f"queue:{clause2}" if clause2.startswith("reentrant:") else f"queue:reentrant:{clause2}",
+                    summary=f"receiver(cap={cap}, policy={pol}), a DEBUG logging handler calling back {kinds} into the same receiver, "
+                            f"ops={small}: {clause2}; observed {list(zip(l2[1:], o2[1:]))[:14]}",
+                    replay={"kind": "ops", "cap": cap, "policy": pol, "ops": small, "base": 0, "reenter": kinds, "pre": clause})
+        res.failures += list(fails.values())
+        res.traces_validated += len(scen)
+        model = LeanDriver(self.driver).run(all_lines)
+        k = diff_streams(all_lines, all_outs, model)
+        if k is not None:
+            for (start, ln, cap, pol, ops, kinds) in spans:
+                if start <= k < start + ln:
+                    res.broken.append(Broken(
+                        "correspondence", "RecvQueue.step vs QMI_SignalReceiver with a re-entering logging handler",
+                        f"line {k - start}: op={all_lines[k]!r} impl={all_outs[k]!r} model={model[k]!r} (nested calls are listed after the outer call)",
+                        case={"cap": cap, "policy": pol, "ops": ops, "base": 0, "reenter": kinds}))
+                    break
+
     def correspondence(self, ctx: Ctx) -> Result:
         res = Result(rule="sequential: scenario = (capacity, policy, op list) generated from the seeded PRNG with bursts around the "
                           "capacity; non-trivial = contains both arrivals and reads; distinct by (cap, policy, ops).  concurrent: "
@@ -567,6 +714,7 @@ class C09(Prop):
                           "discards, stop requests, scheduler seed/policy/change point); non-trivial = at least two threads; "
                           "distinct by the whole scenario")
         self._constructors(ctx, res)
+        self._reentrant(ctx, res, ctx.scale(300, 6000))
         self._differential(ctx, ctx.scale(20000, 400000), ctx.scale(60, 120), res)
         self._concurrent(ctx, res)
         # blocking reads released by an arrival (real threads)
@@ -599,6 +747,7 @@ class C09(Prop):
         # the oracle alone, on the real code: constructor family at full size (every k), then the disagreeing constructor cases
         full = Ctx(ctx.prop_id, "thorough", ctx.seed)
         self._constructors(full, res)
+        self._reentrant(ctx, res, 2000)
         res.broken = []
         for b in broken:
             if b.case and "ctor" in b.case:
@@ -633,7 +782,7 @@ class C09(Prop):
         for b in broken:
             if b.case and "ops" in b.case:
                 c = b.case
-                clause = _oracle(c["cap"], c["policy"], _run_impl(c["cap"], c["policy"], c["ops"], c["base"])[2], c["base"])
+                clause = _oracle(c["cap"], c["policy"], _run_impl(c["cap"], c["policy"], c["ops"], c["base"], reenter=c.get("reenter"))[2], c["base"])
                 res.note_case(("case", repr(c)))
                 if clause:
                     res.failures.append(Failure(f"queue:{clause}", f"{c}: {clause}", {"kind": "ops", **c}))
@@ -671,7 +820,7 @@ class C09(Prop):
         elif rp.get("kind") == "block":
             c = _blocking_release(rp["cap"], rp["policy"], 1, rp["timeout"])
         else:
-            c = _oracle(rp["cap"], rp["policy"], _run_impl(rp["cap"], rp["policy"], rp["ops"], rp.get("base", 0))[2], rp.get("base", 0))
+            c = _oracle(rp["cap"], rp["policy"], _run_impl(rp["cap"], rp["policy"], rp["ops"], rp.get("base", 0), reenter=rp.get("reenter"))[2], rp.get("base", 0))
         return Failure(f"queue:{c}", f"{rp}: {c}", rp) if c else None
 
 
